@@ -41,6 +41,8 @@ func (f byteFault) err() error {
 		return io.EOF
 	case "unexpected":
 		return io.ErrUnexpectedEOF
+	case "errlist":
+		return fast.ErrUnhashable
 	}
 	return fast.ErrCustom
 }
@@ -92,7 +94,7 @@ func Run(ctx *common.Ctx) int {
 		f byteFault
 	}
 	var jobs []seqJob
-	kinds := []string{"end", "unexpected", "custom", "together"}
+	kinds := []string{"end", "unexpected", "custom", "together", "errlist"}
 	for wi := range wf.All {
 		w := &wf.All[wi]
 		var offs []int
@@ -112,7 +114,7 @@ func Run(ctx *common.Ctx) int {
 						if quick {
 							// quick: every offset with one (kind, stickiness, base) combination chosen round-robin,
 							// every combination at every 64th offset
-							if oi%64 != 0 && !(ki == oi%4 && sticky == (oi%2 == 0) && base == []int{0, 997, (w.N + 1) / 2}[oi%3]) {
+							if oi%64 != 0 && !(ki == oi%5 && sticky == (oi%2 == 0) && base == []int{0, 997, (w.N + 1) / 2}[oi%3]) {
 								continue
 							}
 						}
@@ -219,7 +221,7 @@ func Run(ctx *common.Ctx) int {
 		cov["sequential_part"] = "complete as in normal mode"
 		return ctx.Finish("fault_enumeration", cov, []string{"degraded mode for the parallel workflows: schedules sampled by the Go runtime"})
 	}
-	errKinds := []string{"eof", "unexpected", "custom", "partial1", "partialhalf", "partialminus1", "shortthen", "typedthen"}
+	errKinds := []string{"eof", "unexpected", "custom", "partial1", "partialhalf", "partialminus1", "shortthen", "typedthen", "errlist"}
 	var tasks []e1.Task
 	for wi := range wf.All {
 		w := &wf.All[wi]
@@ -309,7 +311,7 @@ func Run(ctx *common.Ctx) int {
 	cov["sequential_fault_runs"] = int(evals)
 	cov["parallel_schedules"] = m.Execs
 	cov["rule"] = "sequential workflows: the source fails at every byte offset of PeriodDetect and SingleDetect(16/40/1280/4096) and at 4 offsets per sample of the 125000-byte workflows x {clean end, unexpected EOF, custom error, error together with a partial read} x {sticky, transient} x base read sizes; " +
-		"parallel workflows: fault at every Read index x 8 kinds x {sticky, transient} x W in {1,2,3} at deviation bound 0 under three default policies, and bound 1 (thorough: 2 for Period) at fault indices {0,1,s/2,s-2,s-1}; " +
+		"parallel workflows: fault at every Read index x 9 kinds (one of them an error whose dynamic type is a slice) x {sticky, transient} x W in {1,2,3} at deviation bound 0 under three default policies, and bound 1 (thorough: 2 for Period) at fault indices {0,1,s/2,s-2,s-1}; " +
 		"distinct = distinct (workflow, kind, sample, position class) for the sequential part plus distinct outcome signatures of the schedules"
 	cov["exhaustive"] = cov["exhaustive"].(bool) && !capped
 	return ctx.Finish("fault_enumeration", cov, []string{
